@@ -5,6 +5,7 @@ from mindsdb_sql.exceptions import PlanningException
 from mindsdb_sql.parser.ast import (Identifier, Operation, Star, Select, BinaryOperation, Constant,
                                     OrderBy, UnaryOperation, NullConstant, TypeCast, Parameter)
 from mindsdb_sql.parser import ast
+from mindsdb_sql.parser.dialects.mindsdb.knowledge_base import CreateKnowledgeBase
 
 
 # def get_integration_path_from_identifier(identifier):
@@ -294,6 +295,12 @@ def query_traversal(node, callback, is_table=False, is_target=False, parent_quer
             node_out = query_traversal(node.where, callback, parent_query=node)
             if node_out is not None:
                 node.where = node_out
+
+    elif isinstance(node, CreateKnowledgeBase):
+        if node.from_query is not None:
+            node_out = query_traversal(node.from_query, callback, parent_query=node)
+            if node_out is not None:
+                node.from_query = node_out
 
     elif isinstance(node, ast.OrderBy):
         if node.field is not None:
